@@ -54,7 +54,9 @@ ASSUMPTIONS = [
     'Lean nextirr/findirr get a fuel of 100000 loop passes (answer "nofuel" would be a mismatch)',
     'Python ints/lists/random and harness/gfpx_oracle.py are correct; random part is a seeded sample',
 ]
-TRUSTED = ['harness/gfpx_oracle.py (trial division, sieve, Rabin test)', 'lean/Drv/GFpX.lean driver']
+TRUSTED = ['harness/gfpx_oracle.py (trial division, sieve, Rabin test)', 'lean/Drv/GFpX.lean driver',
+           'native compilation (lean -c + leanc) of the driver, cross-checked against the interpreter on a probe '
+           'in every run (see props/c23.py prepare_driver)']
 
 # Known genuine deviation of the real code (reported once, minimal instance; the Lean model transcribes it):
 KNOWN_DEVIATIONS = {
@@ -325,11 +327,12 @@ def xgf_correspondence(ctx):
             if rng.random() < 0.4:       # make irreducible inputs frequent: ask the real search for one
                 a = list(gfpx.GFpX(p).next_irreducible(O.to_int(p, a[:-1] + [1])))
             one(p, a)
-    model = common.LeanDriver('GFpX').run(reqs)
+    model = B.drive(reqs)
     ctx.compare('xgf', impl, model, inputs)
 
 
 def run(ctx):
+    B.prepare_driver(ctx)
     jobs = build_jobs(ctx)
     B.run_jobs(ctx, jobs, __name__)
     xgf_correspondence(ctx)
